@@ -487,7 +487,7 @@ func numAmountCase(n gnum) map[string]any {
 		sign = "-"
 	}
 	text := "2024-01-15 x\n    a:b    " + sign + raw + " EUR\n    c:d\n"
-	j, _ := parser.Parse(text)
+	j, _ := hxParse(text)
 	impl := J{"raw": nil, "q": nil}
 	if len(j.Transactions) == 1 && len(j.Transactions[0].Postings) >= 1 && j.Transactions[0].Postings[0].Amount != nil {
 		a := j.Transactions[0].Postings[0].Amount
@@ -1044,7 +1044,7 @@ func checkBalanceJ(tx *ast.Transaction) (res any) {
 // transaction it finds.  A text that does not yield exactly one transaction is reported
 // through "parse": false (the driver then judges the case as unfaithful).
 func c02CheckCase(text string, truth any, dom bool) map[string]any {
-	j, errs := parser.Parse(text)
+	j, errs := hxParse(text)
 	out := map[string]any{"text": hx(text), "truth": truth, "dom": dom}
 	if len(j.Transactions) != 1 {
 		out["tx"] = nil
@@ -1060,7 +1060,7 @@ func c02CheckCase(text string, truth any, dom bool) map[string]any {
 // c02DiagCase: real Parse + Analyze; the balance diagnostics in order, keyed by the line of
 // the transaction they are attached to.
 func c02DiagCase(text string, truth any, dom bool) map[string]any {
-	j, _ := parser.Parse(text)
+	j, _ := hxParse(text)
 	txs := []J{}
 	for _, t := range j.Transactions {
 		txs = append(txs, txJ(t))
@@ -1099,7 +1099,7 @@ func balancesJ(b analyzer.AccountBalances) [][]any {
 }
 
 func c20BalancesCase(text string, truth any) map[string]any {
-	j, _ := parser.Parse(text)
+	j, _ := hxParse(text)
 	txs := []J{}
 	for _, t := range j.Transactions {
 		txs = append(txs, txJ(t))
@@ -1112,7 +1112,7 @@ func c20BalancesCase(text string, truth any) map[string]any {
 // c20HoverCase: the hover texts that show figures, for every account, payee, amount and tag
 // occurrence of the journal, built by the real builders from the real parse.
 func c20HoverCase(text string, truth any) map[string]any {
-	j, _ := parser.Parse(text)
+	j, _ := hxParse(text)
 	txs := j.Transactions
 	txsJ := []J{}
 	for _, t := range txs {
